@@ -152,7 +152,10 @@ func refOf(text string) fileRef {
 		// the head of a dotted chain written in lower case may as well be a package (`a.b.String`)
 		if k+1 < len(sig) && sig[k+1].GetText() == "." {
 			if r := []rune(t.GetText()); len(r) > 0 && !unicode.IsUpper(r[0]) {
-				continue
+				// ... unless a method is called on it (`out.println(1)`): a package has no methods
+				if !(k+3 < len(sig) && sig[k+2].GetTokenType() == parser.JavaLexerIDENTIFIER && sig[k+3].GetText() == "(") {
+					continue
+				}
 			}
 		}
 		in := false
